@@ -994,7 +994,9 @@ func (r *transformingReader) Read(data []byte) (n int, err error) {
 		if err := r.prepareMessage(); err != nil {
 			r.err = err
 			r.rw.reportError(err)
-			return 0, io.EOF
+			// Not io.EOF: for a target protocol without envelopes a clean end here
+			// would look like a complete (empty) request message.
+			return 0, err
 		}
 	}
 }
